@@ -96,6 +96,22 @@ ExpectFirst(c, o1, o2) == LET l1 == LevelIdx(c, o1)  l2 == LevelIdx(c, o2) IN
 OpsOk(c) == c.fam # "op" \/ \A o1, o2 \in Ops(c) :
               FirstOp(c, <<"t:x", o1, "t:x", o2, "t:x">>, 1, <<1>>) = ExpectFirst(c, o1, o2)
 
+\* Degenerate grammars (outside C06: the table builder of the dependency crashes on them, emerge reports an error):
+\* a non-terminal that derives no string of terminals, or a cyclic derivation A =>+ A.
+NTsG(c) == { c.prods[i].h : i \in 1..Len(c.prods) }
+RECURSIVE GenFix(_, _)
+GenFix(c, S) == LET S2 == S \cup { c.prods[i].h : i \in { j \in 1..Len(c.prods) : \A x \in 1..Len(c.prods[j].b) : c.prods[j].b[x] \notin NTsG(c) \/ c.prods[j].b[x] \in S } }
+                IN IF S2 = S THEN S ELSE GenFix(c, S2)
+RECURSIVE NulFix(_, _)
+NulFix(c, S) == LET S2 == S \cup { c.prods[i].h : i \in { j \in 1..Len(c.prods) : \A x \in 1..Len(c.prods[j].b) : c.prods[j].b[x] \in S } }
+                IN IF S2 = S THEN S ELSE NulFix(c, S2)
+RECURSIVE Closure2(_)
+Closure2(R) == LET R2 == R \cup { p \in { <<a[1], b[2]>> : a \in R, b \in R } : \E a \in R, b \in R : a[2] = b[1] /\ p = <<a[1], b[2]>> }
+               IN IF R2 = R THEN R ELSE Closure2(R2)
+Degenerate(c) == \/ GenFix(c, {}) # NTsG(c)
+                 \/ \E e \in Closure2({ e \in NTsG(c) \X NTsG(c) : \E i \in 1..Len(c.prods) : c.prods[i].h = e[1] /\ \E x \in 1..Len(c.prods[i].b) :
+                        c.prods[i].b[x] = e[2] /\ \A y \in 1..Len(c.prods[i].b) : y = x \/ c.prods[i].b[y] \in NulFix(c, {}) }) : e[1] = e[2]
+
 \* Trigger condition of the recorded dependency defect SUPERSET-GOTO: the table builder picks, as the target of a
 \* transition, the FIRST state whose item set contains the computed one; this can only go wrong when the kernel of
 \* one state of the automaton is a proper subset of the kernel of another.
@@ -105,7 +121,9 @@ Check(c) ==
   LET tab == LalrTable(GOf(c))
       unresolved == \E q \in 1..Len(tab.acts) : \E j \in 1..Len(tab.terms) : Cardinality(tab.acts[q][j]) > 1
       rep(tag) == PrintT(tag \o " " \o ToJson([id |-> c.id]))
-  IN /\ (c.perr = "") \/ rep("PARSEERROR")
+  IN IF Degenerate(c) THEN (c.perr = "" /\ (c.built \/ c.terr # "")) \/ rep("PARSEERROR")
+     ELSE
+     /\ (c.perr = "") \/ rep("PARSEERROR")
      /\ (c.perr # "" \/ (c.built = ~unresolved)) \/ rep(IF unresolved THEN "SILENTLYRESOLVED" ELSE "FALSEREJECT")
      /\ (c.perr # "" \/ c.built \/ c.conflict) \/ rep("NOCONFLICTREPORT")
      /\ (~c.built \/ unresolved \/ IsoOk(c, tab)) \/ rep(IF Nested(tab) THEN "TABLEDIFF-NESTED" ELSE "TABLEDIFF")
